@@ -47,7 +47,36 @@ Expected(f) == LET o == f[1] c == f[2] xd == Cross(c, o) yd == Neg(o) zd == c IN
 ASSUME Cardinality(ViewFrames) = 24
 \* the canonical numbering is always a rotation of the reference numbering (right-handed)
 ASSUME \A f \in ViewFrames : \E n \in RotIdx : \A k \in 1..8 : SymTab[n][k] = Expected(f)[k]
-ViewRecord == [ frames |-> { [o |-> f[1], c |-> f[2], expected |-> Expected(f)] : f \in ViewFrames },
+\* ---- viewpoints in general position ----------------------------------------------
+\* The observer looks along o' = 3 o + a x + b c (the block is turned with respect to the line of sight) and the ceiling
+\* point is at c' = 2 c + t o' + s x (t: pulled towards / away from the observer).  The front side is the one whose outward
+\* normal is best aligned with o'; the top side is the remaining one best aligned with the part of c' perpendicular to
+\* the line of sight, Perp = c' |o'|^2 - (c'.o') o' (integers).  Only viewpoints that decide both by a clear margin
+\* (best >= 1.5 x second best) are used, so that a mild distortion of the block cannot change the answer.
+Best(S, v) == CHOOSE n \in S : \A m \in S : Dot(m, v) <= Dot(n, v)
+Clear(S, v) == LET n == Best(S, v) IN \A m \in S \ {n} : 2 * Dot(n, v) >= 3 * Dot(m, v) /\ Dot(n, v) > 0
+Perp(o2, c2) == Sub(Scale(Dot(o2, o2), c2), Scale(Dot(c2, o2), o2))
+Oblique == { g \in [base : ViewFrames, a : {-1, 0, 1}, b : {-1, 0, 1}, t : {-2, -1, 0, 1, 2}, s : {-1, 0, 1}] :
+             g.a # 0 \/ g.b # 0 \/ g.t # 0 \/ g.s # 0 }
+ObO(g) == LET o == g.base[1] c == g.base[2] x == Cross(c, o) IN Add(Scale(3, o), Add(Scale(g.a, x), Scale(g.b, c)))
+ObC(g) == LET o == g.base[1] c == g.base[2] x == Cross(c, o) IN Add(Scale(2, c), Add(Scale(g.t, ObO(g)), Scale(g.s, x)))
+ObFront(g) == Best(Axes6, ObO(g))
+ObRest(g) == Axes6 \ {ObFront(g), Neg(ObFront(g))}
+ObTop(g) == Best(ObRest(g), Perp(ObO(g), ObC(g)))
+ObClear(g) == Clear(Axes6, ObO(g)) /\ Clear(ObRest(g), Perp(ObO(g), ObC(g)))
+ObliqueClear == { g \in Oblique : ObClear(g) }
+\* with these margins the viewpoint never changes which side is in front or on top ...
+ASSUME \A g \in ObliqueClear : ObFront(g) = g.base[1] /\ ObTop(g) = g.base[2]
+\* ... but the set is discriminating: without the perpendicular part (or with the correction added instead of
+\* subtracted) a different side would be taken for the top in some of them
+PerpWrong(o2, c2) == Add(Scale(Dot(o2, o2), c2), Scale(Dot(c2, o2), o2))
+ASSUME \E g \in ObliqueClear : Best(ObRest(g), PerpWrong(ObO(g), ObC(g))) # ObTop(g)
+ASSUME \E g \in ObliqueClear : \E m \in ObRest(g) \ {ObTop(g)} : Dot(m, ObC(g)) >= Dot(ObTop(g), ObC(g))
+ASSUME \A g \in ObliqueClear : << ObFront(g), ObTop(g) >> \in ViewFrames
+ViewRecord == [ oblique |-> { [o |-> ObO(g), c |-> ObC(g), expected |-> Expected(<< ObFront(g), ObTop(g) >>),
+                               turned |-> (g.a # 0 \/ g.b # 0), pulled |-> g.t,
+                               wrongsign |-> (Best(ObRest(g), PerpWrong(ObO(g), ObC(g))) # ObTop(g))] : g \in ObliqueClear },
+                frames |-> { [o |-> f[1], c |-> f[2], expected |-> Expected(f)] : f \in ViewFrames },
                 numberings |-> [n \in 1..48 |-> [k \in 1..8 |-> SymTab[n][k]]] ]
 ViewEmit == PrintT(ToJson(ViewRecord))
 =============================================================================
